@@ -48,6 +48,8 @@ def run(chk, repo):
     from . import c10
     chk.doc("R10.3", "per-CPU value count and stride (shared with C10)")
     c10.percpu(chk, repo)
+    from . import c29
+    c29.no_memo(chk, repo)
 
 
 def layout(chk, repo):
